@@ -381,9 +381,12 @@ class Zeroconf(QuietLogger):
             outdated = [replaced.dns_pointer(), replaced.dns_service(), replaced.dns_text()]
             # and the addresses the host no longer has
             assert replaced.server_key is not None
+            # (also the ones the new ServiceInfo has as well: they are announced
+            # again at once, a queued copy would go out with the replaced TTL)
             current: Set[DNSRecord] = set()
             for other in self.registry.async_get_infos_server(replaced.server_key):
-                current.update(other.get_address_and_nsec_records())
+                if other is not info:
+                    current.update(other.get_address_and_nsec_records())
             outdated.extend(replaced.get_address_and_nsec_records() - current)
             if not self.registry.async_get_infos_type(replaced.type.lower()):
                 outdated.append(self._service_type_enumeration_pointer(replaced.type))
